@@ -57,4 +57,4 @@ for patch in sys.argv[1:]:
     finally:
         shutil.rmtree(scratch, ignore_errors=True)
     print(patch, json.dumps(out[patch])[:400], flush=True)
-json.dump(out, open("/tmp/seedscan.json", "w"), indent=1)
+json.dump(out, open(os.environ.get("SEEDSCAN_OUT", "/tmp/seedscan.json"), "w"), indent=1)
